@@ -563,3 +563,45 @@ def run(check, ctx):
     number_rows(check, repo)
     primality_tables(check, repo, thorough=ctx.tier == "thorough")
     legacy_primality_rows(check, repo, thorough=ctx.tier == "thorough")
+    strong_prime_interval(check, repo)
+
+
+def strong_prime_interval(check, repo):
+    """number.getStrongPrime(N): the candidate X is drawn from an interval that makes the result exactly N bits long
+    (and the product of two results exactly 2N bits): [~sqrt(2) * 2^(N-1), 2^N - 1].  The arguments of the draw are
+    extracted by interpreting the function up to that call for every accepted N from 512 to 2048 (multiples of 128);
+    the final search only moves X by less than p1*p2 < 2^204 and aborts at 2^N."""
+    NM = "Crypto.Util.number"
+    mod = repo.module(NM)
+    fn = repo.func(mod, "getStrongPrime")
+    wrong = []
+    n = 0
+    for N in list(range(512, 2048 + 1, 128)) + [4096]:
+        seen = []
+
+        def m_range(i, a, kw, st, node, seen=seen):
+            seen.append(tuple(a[:2]))
+            i._diverged = i.do_raise("StopIteration", st, node)
+            return UNK
+        it = Interp(repo, max_depth=2, extra_models={NM + ".getRandomRange": m_range})
+        it.inject = {"_fastmath": None}
+        it.run(mod, fn, {"N": N, "e": 0, "false_positive_prob": 1e-6, "randfunc": ABuiltin("vstat.rand")})
+        n += 1
+        if len(seen) != 1 or not all(isinstance(x, int) for x in seen[0]):
+            wrong.append("N=%d: the interval of the draw is not determined (%r)" % (N, seen[:1]))
+            continue
+        lo, hi = seen[0]
+        if not ((1 << (N - 1)) <= lo < hi <= (1 << N) - 1):
+            wrong.append("N=%d: X is drawn from [2^%d.., 2^%d..]: not an interval of %d-bit numbers" % (N, lo.bit_length() - 1, hi.bit_length() - 1 if hi & (hi + 1) else hi.bit_length(), N))
+        elif lo * lo < (1 << (2 * N - 1)) - (1 << (2 * N - 50)) or hi != (1 << N) - 1 or lo > (1 << (N - 1)) * 3 // 2:
+            wrong.append("N=%d: interval [%#x.., %#x..] is not [sqrt(2) * 2^%d, 2^%d - 1]" % (N, lo >> (N - 16), hi >> (N - 16), N - 1, N))
+    for N in (0, 511, 513, 576, 640 + 64, 384):
+        it = Interp(repo, max_depth=2, extra_models={NM + ".getRandomRange": lambda i, a, kw, st, node: UNK})
+        it.inject = {"_fastmath": None}
+        res = it.run(mod, fn, {"N": N, "e": 0, "false_positive_prob": 1e-6, "randfunc": ABuiltin("vstat.rand")})
+        n += 1
+        if not res.rejected() or set(res.raise_classes()) != {"ValueError"}:
+            wrong.append("N=%d is not refused with ValueError" % N)
+    check.ob("G", "G|number.getStrongPrime.interval", not wrong, mod.path, fn.lineno,
+             extracted="; ".join(wrong[:3]) if wrong else "%d sizes: X drawn from [sqrt(2) * 2^(N-1), 2^N - 1]; sizes that are not multiples of 128 or below 512 refused" % n,
+             expected="getStrongPrime(N) returns a prime of exactly N bits (documented), large enough for a 2N-bit product")
